@@ -160,7 +160,7 @@ def parseCal (e : SExp) : Option (Option Calibrator) :=
         let a ← a.val?; let b ← b.val?
         pure (do let a ← valRat a; let b ← valRat b; pure ({ raw := a, cal := b } : SplinePoint))
       | _ => none)
-    pure ((ps.mapM id).map (fun ps => Calibrator.spline { points := ps, order := o, extrapolate := x }))
+    pure ((ps.mapM id).map (fun ps => Calibrator.spline { points := sortPoints ps, order := o, extrapolate := x }))
   | _ => none
 
 structure Unsup (α : Type) where
